@@ -56,7 +56,10 @@ def run_runner(su, case, root):
         with contextlib.redirect_stdout(devnull):
             if case["runner"] == "pool":
                 multiprocessing.cpu_count = lambda: case["cpu"]
-                su.perform_parallel_simulation_with_multiprocessing(args, simulation)
+                if case["max_workers"] is None:
+                    su.perform_parallel_simulation_with_multiprocessing(args, simulation)
+                else:               # the argument the pool runner documents as unused: every job still runs exactly once
+                    su.perform_parallel_simulation_with_multiprocessing(args, simulation, max_workers=case["max_workers"])
             elif case["runner"] == "executor":
                 su.perform_parallel_simulation(args, simulation, max_workers=case["max_workers"])
             else:
